@@ -24,9 +24,13 @@ type c42RangeSpec struct{ off, length int64 }
 // staged by its own git process).
 const c42MaxParts = 24
 
-// c42PickKind draws the backend. LocalBlobstore sleeps 10 ms per Put and GitBlobstore runs
-// 10-25 git processes per manifest update, so their shares are capped.
+// c42PickKind draws the backend. LocalBlobstore sleeps 10 ms per Put, so its share is capped;
+// GitBlobstore runs 2 git processes per read and 10-25 per manifest update, so git cases run
+// as their own small sub-checks (gitPct = 100) with explicit case counts.
 func c42PickKind(rt *rapid.T, label string, localPct, gitPct int) string {
+	if gitPct >= 100 {
+		return c42Git
+	}
 	n := c42Pct(rt, label)
 	switch {
 	case n < 100-localPct-gitPct:
@@ -247,9 +251,9 @@ func c42Reader(rt *rapid.T, ctx context.Context, st *c42Store, w blobstore.Blobs
 	return st.client(rt), "second"
 }
 
-func c42RangesCase(rt *rapid.T, rec *vh.Recorder) {
+func c42RangesCase(rt *rapid.T, rec *vh.Recorder, localPct, gitPct int) {
 	ctx := context.Background()
-	kind := c42PickKind(rt, "backend", 12, 6)
+	kind := c42PickKind(rt, "backend", localPct, gitPct)
 	var g c42GitOpts
 	if kind == c42Git {
 		g = c42DrawGitOpts(rt)
@@ -263,6 +267,9 @@ func c42RangesCase(rt *rapid.T, rec *vh.Recorder) {
 		maxSize = int(part) * c42MaxParts // every part costs a git process when written
 	}
 	nBlobs := rapid.IntRange(1, 3).Draw(rt, "nBlobs")
+	if kind == c42Git && nBlobs > 2 {
+		nBlobs = 2
+	}
 	type blob struct {
 		key  string
 		data []byte
@@ -303,6 +310,9 @@ func c42RangesCase(rt *rapid.T, rec *vh.Recorder) {
 			rt.Fatalf("%s Exists(%s) = %v, %v after Put", who, b.key, ok, err)
 		}
 		n := rapid.IntRange(4, 8).Draw(rt, b.key+".nRanges")
+		if kind == c42Git && n > 5 {
+			n = 5 // two git processes per read
+		}
 		var rs []string
 		for j := 0; j < n; j++ {
 			r := c42DrawRange(rt, fmt.Sprintf("%s.r%d", b.key, j), size, part)
@@ -351,9 +361,9 @@ func c42Dedup(in []string) []string {
 	return out
 }
 
-func c42ConcatCase(rt *rapid.T, rec *vh.Recorder) {
+func c42ConcatCase(rt *rapid.T, rec *vh.Recorder, localPct, gitPct int) {
 	ctx := context.Background()
-	kind := c42PickKind(rt, "backend", 10, 6)
+	kind := c42PickKind(rt, "backend", localPct, gitPct)
 	var g c42GitOpts
 	if kind == c42Git {
 		g = c42DrawGitOpts(rt)
